@@ -17,6 +17,7 @@ mod mon_c20;
 mod emit;
 mod mon_fn;
 mod mon_pow;
+mod pools;
 
 use ctx::{Ctx, TIER_QUICK, TIER_THOROUGH};
 use std::io::Write;
